@@ -1,11 +1,15 @@
 use crate::engine::Prop;
 
+pub mod c03;
+pub mod c04;
 pub mod c15;
 
-pub const ALL: &[&str] = &["C15"];
+pub const ALL: &[&str] = &["C03", "C04", "C15"];
 
 pub fn get(id: &str) -> Option<Box<dyn Prop>> {
     match id {
+        "C03" => Some(Box::new(c03::C03)),
+        "C04" => Some(Box::new(c04::C04)),
         "C15" => Some(Box::new(c15::C15)),
         _ => None,
     }
